@@ -101,6 +101,9 @@ void h_fmt_value(void) {
 /* sign rule alone (cheap enough for 64 bit in the quick tier) */
 void h_fmt_sign(void) {
     uv_t val = W == 32 ? nondet_uint() : nondet_u64(); scpi_bool_t sign = nondet_bool(); int8_t base = FIXBASE; char full[BUFSZ + 2];
+#ifdef SIGNLO   /* bounded variant: |value| < 2^SIGNLO (the values around the 32-bit boundary, where a narrower routine could be mistaken for this one) */
+    __CPROVER_assume(val < ((uv_t) 1 << SIGNLO) || val >= (uv_t) (0 - ((uv_t) 1 << SIGNLO)));
+#endif
     size_t rf = FMT(val, full, BUFSZ, base, sign);
     int b = (base == 2 || base == 8 || base == 16) ? base : 10;
     __CPROVER_assert(rf >= 1 && (full[0] == '-') == (sign && b == 10 && (sv_t) val < 0), "C14: '-' exactly for negative signed decimals, for every value");
